@@ -43,26 +43,7 @@ static void Fail(const std::string & key, const std::string & why)
    vh::viol(key, why + " | scenario: " + curScen + " | script: " + curScript);
 }
 
-// defects of the unchanged tree found by this harness: each has its own stable key, is reported once per case and does not
-// end the case (the Messages it concerns are "optional" for the identity oracle, everything else is judged as usual)
-static std::set<std::string> caseFindings;
-static void Finding(const std::string & key, const std::string & why)
-{
-   if (!caseFindings.insert(key).second) return;
-   vh::viol(key, why + " | scenario: " + curScen + " | script: " + curScript);
-}
-enum { FIT_NO = 0, FIT_YES = 1, FIT_SLAVE_TRUNC = 2, FIT_SHADOWED = 3, FIT_ZLIB_SLAVE_MULTI = 4, FIT_MINI_MISLABELLED = 5, FIT_ZLIB_SLAVE_AFTER_LOSS = 6 };
-static const char * FindingKey(int f)
-{
-   switch (f) {
-   case FIT_SLAVE_TRUNC:       return "finding|slave_gateway_buffer_truncated_at_default_packet_size";       // (repaired in /repo; no Message is classified so any more: regress witness 30)
-   case FIT_SHADOWED:          return "finding|max_incoming_size_drops_rest_of_packet";                      // oversize chunk -> break instead of skipping the chunk
-   case FIT_ZLIB_SLAVE_MULTI:  return "finding|zlib_slave_dependent_stream|lost_with_several_sources";        // one inflater for all sources, dependent deflate streams
-   case FIT_MINI_MISLABELLED:  return "finding|mini_zlib_held_packet_header_says_uncompressed";              // header patched in place, packet re-deflated after a held Write
-   case FIT_ZLIB_SLAVE_AFTER_LOSS: return "finding|zlib_slave_dependent_stream|lost_after_undelivered_message"; // the Messages behind one that the receiver did not inflate
-   }
-   return "finding|?";
-}
+enum { FIT_NO = 0, FIT_YES = 1 };
 
 // ---- the wire
 static bool g_oversize;
@@ -130,14 +111,14 @@ template<class G> static bool PresetPacketCounter(G &, uint32, long) { return fa
 
 // ---- scenario
 struct Scen {
-   bool mini; int zl; int slave; /* 0 none, 1 MessageIOGateway, 2 MessageIOGateway zlib-6 */ uint32 mtu, ctorMtu; int ns; int addrKind;
+   bool mini; int zl; int slave; /* 0 none, 1 MessageIOGateway, 2 zlib-6 MessageIOGateway with independent streams, 3 plain zlib-6 MessageIOGateway (dependent streams) */ uint32 mtu, ctorMtu; int ns; int addrKind;
    IPAddressAndPort addr[MAXS]; uint32 idBase[MAXS]; bool viaSetter[MAXS];
    uint32 maxIncoming; bool flushEach; uint32 holdDen; uint32 outMax, inMax; bool equalSize;
    std::vector<std::string> sent[MAXS]; std::vector<char> fits[MAXS]; std::vector<Pkt> pk[MAXS];
    std::set<std::string> sentSet[MAXS];
    Scen() : mini(false), zl(0), slave(0), mtu(1500), ctorMtu(1500), ns(1), addrKind(0), maxIncoming(MUSCLE_NO_LIMIT), flushEach(false), holdDen(0), outMax(MUSCLE_NO_LIMIT), inMax(MUSCLE_NO_LIMIT), equalSize(false)
    { for (int i = 0; i < MAXS; i++) { idBase[i] = 0; viaSetter[i] = false; } }
-   const char * Kind() const { return mini ? (slave ? "mini+slave" : "mini") : (slave == 2 ? "tunnel+slavezlib" : (slave ? "tunnel+slave" : "tunnel")); }
+   const char * Kind() const { return mini ? (slave ? "mini+slave" : "mini") : (slave == 3 ? "tunnel+slavezlibdep" : (slave == 2 ? "tunnel+slavezlib" : (slave ? "tunnel+slave" : "tunnel"))); }
    std::string Describe() const
    {
       std::string s = vh::fmt("%s zlib=%d slave=%d mtu=%u(ctor %u) senders=%d addrKind=%d maxIncoming=%u flushEach=%d hold=1/%u equalSize=%d;", Kind(), zl, slave, mtu, ctorMtu, ns, addrKind, maxIncoming, (int)flushEach, holdDen, (int)equalSize);
@@ -151,10 +132,19 @@ struct Scen {
    }
 };
 
+// MessageIOGateway.h, AreOutgoingMessagesIndependent(): over a transport where the receiver cannot re-inflate in FIFO order (loss, reordering,
+// several sources) the user reimplements this method to return true -- the documented way to put a zlib gateway behind a packet tunnel
+class IndependentZLibGateway : public MessageIOGateway {
+public:
+   IndependentZLibGateway() : MessageIOGateway(MUSCLE_MESSAGE_ENCODING_ZLIB_6) {}
+   virtual bool AreOutgoingMessagesIndependent() const { return true; }
+};
 static AbstractMessageIOGatewayRef MakeSlave(int slave)
 {
    if (slave == 0) return AbstractMessageIOGatewayRef();
-   return AbstractMessageIOGatewayRef(new MessageIOGateway(slave == 2 ? MUSCLE_MESSAGE_ENCODING_ZLIB_6 : MUSCLE_MESSAGE_ENCODING_DEFAULT));
+   if (slave == 1) return AbstractMessageIOGatewayRef(new MessageIOGateway(MUSCLE_MESSAGE_ENCODING_DEFAULT));
+   if (slave == 2) return AbstractMessageIOGatewayRef(new IndependentZLibGateway);
+   return AbstractMessageIOGatewayRef(new MessageIOGateway(MUSCLE_MESSAGE_ENCODING_ZLIB_6));   // FIFO re-inflation assumed: one source, nothing lost (identity script only)
 }
 
 // exact flattened size T (12 = empty Message, otherwise >= 27): one int8-array or raw field "d"
@@ -261,9 +251,6 @@ static void Judge(const Scen & sc, const std::vector<Got> & got, bool identity)
          int other = -1; for (int k = 0; k < sc.ns; k++) if (sc.sentSet[k].count(got[i].bytes)) other = k;
          const std::string why = (other >= 0) ? vh::fmt("delivered Message %zu (%zu bytes) is attributed to sender %d but was sent by sender %d only", i, got[i].bytes.size(), s, other)
                                               : vh::fmt("delivered Message %zu (%zu bytes, attributed to sender %d) equals no sent Message: %s", i, got[i].bytes.size(), s, vh::hex(got[i].bytes.data(), got[i].bytes.size(), 96).c_str());
-         // a zlib slave gateway deflates every Message as a continuation of the previous ones; after a lost Message (or with a second
-         // source) the receiver inflates against the wrong history: garbled Messages are delivered (defect of the unchanged tree)
-         if (sc.slave == 2) { Finding("finding|zlib_slave_dependent_stream|never_sent", why); continue; }
          Fail(std::string(other >= 0 ? "wrong_sender|" : "never_sent|") + sc.Kind(), why);
          return;
       }
@@ -273,30 +260,13 @@ static void Judge(const Scen & sc, const std::vector<Got> & got, bool identity)
    if (caseBad) return;
    long expectTotal = 0;
    for (int s = 0; s < sc.ns; s++) {
-      std::vector<const std::string *> want; std::vector<int> flag;
-      for (size_t k = 0; k < sc.sent[s].size(); k++) if (sc.fits[s][k]) { want.push_back(&sc.sent[s][k]); flag.push_back(sc.fits[s][k]); if (sc.fits[s][k] == FIT_YES) expectTotal++; }
+      std::vector<const std::string *> want;
+      for (size_t k = 0; k < sc.sent[s].size(); k++) if (sc.fits[s][k]) want.push_back(&sc.sent[s][k]);
+      expectTotal += (long)want.size();
       if (!identity) { std::map<std::string, long> c; for (size_t k = 0; k < sc.sent[s].size(); k++) c[sc.sent[s][k]]++; for (size_t k = 0; k < per[s].size(); k++) if (--c[*per[s][k]] < 0) { g_dupDeliveries++; break; } continue; }
-      // in order, exactly once; Messages concerned by a known defect may be missing (reported under the defect's key)
-      // (equal Messages are interchangeable, so this is a reachability table, not a greedy walk)
-      const size_t nw = want.size(), ng = per[s].size(); long skipped[8] = {0, 0, 0, 0, 0, 0, 0, 0};
-      std::vector<char> feas((nw + 1) * (ng + 1), 0);
-      #define FEAS(i, j) feas[(i) * (ng + 1) + (j)]
-      for (size_t i = nw + 1; i-- > 0;) for (size_t j = ng + 1; j-- > 0;) {
-         bool f;
-         if (i == nw) f = (j == ng);
-         else f = (j < ng && *want[i] == *per[s][j] && FEAS(i + 1, j + 1)) || (flag[i] != FIT_YES && FEAS(i + 1, j));
-         FEAS(i, j) = f;
-      }
-      bool same = FEAS(0, 0) != 0;
-      if (same) { size_t i = 0, j = 0; while (i < nw) { if (j < ng && *want[i] == *per[s][j] && FEAS(i + 1, j + 1)) { i++; j++; } else { skipped[flag[i]]++; i++; } } }
-      #undef FEAS
-      if (same) { for (int f = 2; f < 8; f++) if (skipped[f]) { vh::stat(std::string("occurrences_") + FindingKey(f), skipped[f]); Finding(FindingKey(f), vh::fmt("identity script: %ld Message(s) of sender %d not delivered", skipped[f], s)); } continue; }
-      // zlib slave gateway with an undelivered Message in the stream: what follows is inflated against the wrong history and can come out as a
-      // copy of an older Message (same defect as finding|zlib_slave_dependent_stream|never_sent)
-      if (sc.slave == 2) { bool anyOpt = false; for (size_t k = 0; k < flag.size(); k++) if (flag[k] != FIT_YES) anyOpt = true; if (anyOpt) { Finding("finding|zlib_slave_dependent_stream|garbled_after_undelivered_message", vh::fmt("identity script, sender %d: %zu Messages delivered that are not a subsequence of the %zu sent", s, per[s].size(), want.size())); continue; } }
-      std::map<std::string, long> c; for (size_t k = 0; k < want.size(); k++) if (flag[k] == FIT_YES) c[*want[k]]++;
-      std::map<std::string, long> opt; for (size_t k = 0; k < want.size(); k++) if (flag[k] != FIT_YES) opt[*want[k]]++;
-      for (size_t k = 0; k < per[s].size(); k++) { const std::string & b = *per[s][k]; if (c.count(b) && c[b] > 0) c[b]--; else if (opt.count(b) && opt[b] > 0) opt[b]--; else c[b]--; }
+      bool same = per[s].size() == want.size(); for (size_t k = 0; same && k < want.size(); k++) if (*want[k] != *per[s][k]) same = false;   // in order, exactly once
+      if (same) continue;
+      std::map<std::string, long> c; for (size_t k = 0; k < want.size(); k++) c[*want[k]]++; for (size_t k = 0; k < per[s].size(); k++) c[*per[s][k]]--;
       long missing = 0, extra = 0; size_t firstMissing = 0; for (std::map<std::string, long>::const_iterator it = c.begin(); it != c.end(); ++it) { if (it->second > 0) { if (!missing) firstMissing = it->first.size(); missing += it->second; } if (it->second < 0) extra -= it->second; }
       const char * what = missing ? "message_lost" : (extra ? "delivered_more_than_once" : "order");
       Fail(std::string("identity|") + what + "|" + sc.Kind(), vh::fmt("sender %d: %zu Messages sent within the limits, %zu delivered (missing %ld, e.g. one of %zu bytes; extra %ld)", s, want.size(), per[s].size(), missing, firstMissing, extra));
@@ -306,14 +276,12 @@ static void Judge(const Scen & sc, const std::vector<Got> & got, bool identity)
 }
 
 // ---- scenario generation
-// Messages concerned by defects of the unchanged tree (see FindingKey) become optional for the identity oracle
-static void ClassifyKnownDefects(Scen & sc, int s)
+// wire invariant of the mini tunnel: a packet whose header says "not deflated" does not start with a ZLibCodec header
+static bool MiniPacketMislabelled(const std::string & b)
 {
-   if (sc.mini && sc.zl) for (size_t i = 0; i < sc.pk[s].size(); i++) {
-      const std::string & b = sc.pk[s][i].bytes; if (b.size() < 16) continue;
-      const uint8 * p = (const uint8 *)b.data(); const uint32 lvl = DefaultEndianConverter::Import<uint32>(p + 8) >> 24, first = DefaultEndianConverter::Import<uint32>(p + 12);
-      if (lvl == 0 && (first == 2053925218u || first == 2053925219u)) { for (size_t q = 0; q < sc.fits[s].size(); q++) if (sc.fits[s][q] == FIT_YES) sc.fits[s][q] = FIT_MINI_MISLABELLED; vh::stat("mini_packets_deflated_but_labelled_uncompressed"); }
-   }
+   if (b.size() < 16) return false;
+   const uint8 * p = (const uint8 *)b.data(); const uint32 lvl = DefaultEndianConverter::Import<uint32>(p + 8) >> 24, first = DefaultEndianConverter::Import<uint32>(p + 12);
+   return lvl == 0 && (first == 2053925218u || first == 2053925219u);
 }
 
 static uint32 PickMTU(bool mini, bool & named)
@@ -329,7 +297,7 @@ static uint32 PickMTU(bool mini, bool & named)
 static void Generate(Scen & sc, bool small)
 {
    sc.mini = R(3) == 0;
-   sc.slave = (R(4) == 0) ? (sc.mini ? 1 : 1 + (int)R(2)) : 0;
+   sc.slave = (R(4) == 0) ? (sc.mini ? 1 : 1 + (int)R(3)) : 0;
    sc.zl = sc.mini ? (R(2) ? 6 : (R(4) == 0 ? (R(2) ? 1 : 9) : 0)) : 0;
    bool named; sc.mtu = PickMTU(sc.mini, named); sc.ctorMtu = sc.mtu;
    const uint32 minMtu = sc.mini ? 17 : 25;
@@ -337,6 +305,7 @@ static void Generate(Scen & sc, bool small)
    if (sc.mtu == minMtu) vh::stat("cases_mtu_min"); else if (sc.mtu == minMtu + 1) vh::stat("cases_mtu_min_plus_1"); else if (sc.mtu == minMtu + 2) vh::stat("cases_mtu_min_plus_2");
    if (sc.mtu == 64) vh::stat("cases_mtu_64"); if (sc.mtu == 1500) vh::stat("cases_mtu_1500");
    sc.ns = 1 + (int)R(3);
+   if (sc.slave == 3) sc.ns = 1;                                    // dependent deflate streams: one source, in order, nothing lost
    sc.addrKind = (int)R(4);
    for (int s = 0; s < sc.ns; s++) {
       switch (sc.addrKind) {
@@ -361,7 +330,7 @@ static void Generate(Scen & sc, bool small)
    for (int s = 0; s < sc.ns; s++) {
       std::vector<MessageRef> msgs;
       const int nm = small ? 1 + (int)R(4) : 1 + (int)R(R(3) == 0 ? 40 : 10);
-      const int content = (sc.zl || sc.slave == 2) ? (R(3) ? 1 : (int)R(3)) : (R(4) ? 0 : 1 + (int)R(2));
+      const int content = (sc.zl || sc.slave >= 2) ? (R(3) ? 1 : (int)R(3)) : (R(4) ? 0 : 1 + (int)R(2));
       for (int i = 0; i < nm; i++) {
          uint32 T;
          if (sc.equalSize && fixedT) T = fixedT;
@@ -409,18 +378,12 @@ static void Generate(Scen & sc, bool small)
          for (size_t i = 0; i < sc.pk[s].size(); i++) if (sc.pk[s][i].bytes.size() >= 12 && (DefaultEndianConverter::Import<uint32>((const uint8 *)sc.pk[s][i].bytes.data() + 8) & 0xFFFFFF) < sc.idBase[s]) vh::stat("mini_packets_sent_after_packet_id_wraparound");
       }
       sc.sentSet[s].insert(sc.sent[s].begin(), sc.sent[s].end());
-      ClassifyKnownDefects(sc, s);
+      if (sc.mini && sc.zl) for (size_t i = 0; i < sc.pk[s].size(); i++) if (MiniPacketMislabelled(sc.pk[s][i].bytes)) { Fail("mini_zlib_held_packet_header_says_uncompressed", vh::fmt("packet %zu of sender %d is deflated but its header says level 0", i, s)); return; }
    }
-   if (sc.slave == 2 && sc.ns > 1) for (int s = 0; s < sc.ns; s++) for (size_t i = 0; i < sc.fits[s].size(); i++) if (sc.fits[s][i] == FIT_YES) sc.fits[s][i] = FIT_ZLIB_SLAVE_MULTI;
    // receiver-side size limit (no slave gateway: the tunnel-level buffer is the flattened Message)
    if (!sc.mini && sc.slave == 0 && allSizes.size() > 1 && R(8) == 0) {
       sc.maxIncoming = allSizes[R((uint32)allSizes.size())];
       for (int s = 0; s < sc.ns; s++) for (size_t i = 0; i < sc.sent[s].size(); i++) if (sc.sent[s][i].size() > sc.maxIncoming) sc.fits[s][i] = FIT_NO;
-      // a chunk of an oversize Message ends the parsing of its packet: the chunks behind it are lost with it (defect of the unchanged tree)
-      for (int s = 0; s < sc.ns; s++) for (size_t i = 0; i < sc.pk[s].size(); i++) {
-         std::vector<Chunk> cs; (void)ParseTunnelPacket(sc.pk[s][i].bytes, cs); bool shadow = false;
-         for (size_t q = 0; q < cs.size(); q++) { const uint32 idx = cs[q].id - sc.idBase[s]; if (shadow && idx < sc.fits[s].size() && sc.fits[s][idx] == FIT_YES) sc.fits[s][idx] = FIT_SHADOWED; if (cs[q].total > sc.maxIncoming) shadow = true; }
-      }
       vh::stat("cases_with_max_incoming_size");
    }
    if (g_oversize) Fail(std::string("sender|packet_larger_than_mtu|") + sc.Kind(), "a packet larger than the MTU was written");
@@ -435,7 +398,7 @@ static void Observe(const Scen & sc, bool & multiFrag, bool & multiChunk)
    long npk = 0;
    for (int s = 0; s < sc.ns; s++) {
       npk += (long)sc.pk[s].size();
-      for (size_t i = 0; i < sc.fits[s].size(); i++) { vh::stat("messages_sent"); if (!sc.fits[s][i]) vh::stat("messages_beyond_gateway_limits"); else if (sc.fits[s][i] != FIT_YES) vh::stat("messages_concerned_by_a_known_defect"); else if (sc.mini && MINI_HDR + MINI_CHUNK_HDR + (sc.slave ? SLAVE_HDR : 0) + sc.sent[s][i].size() == sc.mtu) vh::stat("mini_messages_fitting_the_mtu_exactly"); }
+      for (size_t i = 0; i < sc.fits[s].size(); i++) { vh::stat("messages_sent"); if (!sc.fits[s][i]) vh::stat("messages_beyond_gateway_limits"); else if (sc.mini && MINI_HDR + MINI_CHUNK_HDR + (sc.slave ? SLAVE_HDR : 0) + sc.sent[s][i].size() == sc.mtu) vh::stat("mini_messages_fitting_the_mtu_exactly"); }
       if (!sc.mini) for (size_t i = 0; i < sc.pk[s].size(); i++) {
          std::vector<Chunk> cs; (void)ParseTunnelPacket(sc.pk[s][i].bytes, cs);
          if (cs.size() > 1) { multiChunk = true; vh::stat("tunnel_packets_with_several_chunks"); }
@@ -475,14 +438,14 @@ static std::string ShowOrder(const std::vector<int> & o) { std::string s = "["; 
 
 static void CaseExhaustive(long k, uint64_t cs)
 {
-   g = vh::Rng(cs); caseBad = false; caseFindings.clear(); g_oversize = false; curScript = "(sending)"; curScen = "";
+   g = vh::Rng(cs); caseBad = false; g_oversize = false; curScript = "(sending)"; curScen = "";
    Scen sc; Generate(sc, true); curScen = sc.Describe();
    if (caseBad) return;
    bool mf, mc; Observe(sc, mf, mc);
    std::vector<const Pkt *> base; Merge(sc, base);
    const int L = (int)base.size();
    curScript = "identity"; { std::vector<const Pkt *> seq(base); if (!RunScript(sc, seq, true)) return; }
-   if (L == 0) { vh::distinct(vh::fnvs(curScen), false); return; }
+   if (L == 0 || sc.slave == 3) { if (sc.slave == 3) vh::stat("cases_dependent_zlib_slave_identity_only"); vh::distinct(vh::fnvs(curScen, vh::fnv(&cs, sizeof(cs))), false); return; }
    const int n = std::min(L, 3 + (int)R(4));                 // window 3..6 (or the whole sequence)
    const int w0 = (int)R((uint32)(L - n + 1));
    if (L <= 6) vh::stat("cases_whole_sequence_exhaustive");
@@ -517,12 +480,13 @@ static void CaseExhaustive(long k, uint64_t cs)
 
 static void CaseSampled(long k, uint64_t cs)
 {
-   g = vh::Rng(cs); caseBad = false; caseFindings.clear(); g_oversize = false; curScript = "(sending)"; curScen = "";
+   g = vh::Rng(cs); caseBad = false; g_oversize = false; curScript = "(sending)"; curScen = "";
    Scen sc; Generate(sc, false); curScen = sc.Describe();
    if (caseBad) return;
    bool mf, mc; Observe(sc, mf, mc);
    { std::vector<const Pkt *> base; Merge(sc, base); curScript = "identity"; if (!RunScript(sc, base, true)) return; }
-   for (int rep = 0; rep < 8 && !caseBad; rep++) {
+   if (sc.slave == 3) vh::stat("cases_dependent_zlib_slave_identity_only");
+   for (int rep = 0; rep < 8 && !caseBad && sc.slave != 3; rep++) {
       std::vector<const Pkt *> base; Merge(sc, base);
       static const uint32 lossDen[] = {0, 40, 12, 4, 2}, dupDen[] = {0, 30, 8, 3};
       const uint32 ld = lossDen[R(5)], dd = dupDen[R(4)]; const uint32 win = R(3) == 0 ? 0 : (R(2) ? 1 + R(3) : 1 + R(40)); const uint32 moveDen = 1 + R(6);
@@ -557,6 +521,15 @@ static void Witness(long id, const char * name, Scen & sc, const std::vector<con
    Judge(sc, got, false);
    if (!caseBad && wantDelivered >= 0 && (long)got.size() != wantDelivered) Fail(std::string("regress|") + name, vh::fmt("%zu Messages delivered, %ld expected", got.size(), wantDelivered));
    vh::distinct((uint64_t)id + 1);
+}
+// identity script on a fixed scenario; a failure is reported under the witness's own key
+static void WitnessIdentity(const char * key, const Scen & sc)
+{
+   std::vector<const Pkt *> seq; for (int s = 0; s < sc.ns; s++) for (size_t i = 0; i < sc.pk[s].size(); i++) seq.push_back(&sc.pk[s][i]);
+   std::vector<Got> got; if (!RunReceiver(sc, seq, got)) return;
+   std::vector<std::string> want; for (int s = 0; s < sc.ns; s++) for (size_t i = 0; i < sc.sent[s].size(); i++) if (sc.fits[s][i]) want.push_back(sc.sent[s][i]);
+   bool same = want.size() == got.size(); for (size_t i = 0; same && i < want.size(); i++) if (want[i] != got[i].bytes) same = false;
+   if (!same) Fail(key, vh::fmt("identity script: %zu Messages within the limits sent, %zu delivered (or different ones)", want.size(), got.size()));
 }
 static void Regress()
 {
@@ -608,13 +581,26 @@ static void Regress()
       // 1168-byte packet size, so every Message larger than that was silently lost.  MTU 200, Message of 2037 flattened bytes -> delivered once;
       // also a Message of 20 x MTU through the mini tunnel's limit (1500-byte MTU, 8-byte slave header, exact fit)
       for (int v = 0; v < 2; v++) {
-         Scen sc; sc.mini = (v == 1); sc.slave = 1; sc.mtu = sc.ctorMtu = v ? 1500 : 200; sc.ns = 1; sc.addr[0] = IPAddressAndPort(IPAddress((uint64)0x7f000001, 0), 4000); caseBad = false; caseFindings.clear();
+         Scen sc; sc.mini = (v == 1); sc.slave = 1; sc.mtu = sc.ctorMtu = v ? 1500 : 200; sc.ns = 1; sc.addr[0] = IPAddressAndPort(IPAddress((uint64)0x7f000001, 0), 4000); caseBad = false;
          vh::begin_case(30 + v); curScript = "regress: slave gateway, Message larger than the default packet size";
          std::vector<MessageRef> m; m.push_back(MakeMsg(1, 40, 0, 1)); m.push_back(MakeMsg(2, v ? 1500 - 16 - 8 : 2037, 0, 2)); m.push_back(MakeMsg(3, 4000 * (1 - v) + 50, 0, 3)); m.push_back(MakeMsg(4, 12, 0, 4));
          SendAll(sc, 0, m); curScen = sc.Describe();
          std::vector<const Pkt *> seq; for (size_t i = 0; i < sc.pk[0].size(); i++) seq.push_back(&sc.pk[0][i]);
          std::vector<Got> got; if (RunReceiver(sc, seq, got)) Judge(sc, got, true);
          vh::distinct(31 + v);
+      }
+   }
+   {  // repaired defect: a chunk of a Message above SetMaxIncomingMessageSize() ended the parsing of its packet, so the Messages behind it in the
+      // same packet were lost although they are within the limit.  MTU 241, limit 12, Messages of 44 and 12 bytes in one packet; then a longer mix
+      for (int v = 0; v < 2; v++) {
+         Scen sc; sc.mtu = sc.ctorMtu = v ? 100 : 241; sc.maxIncoming = v ? 40 : 12; sc.ns = 1; sc.addr[0] = IPAddressAndPort(IPAddress((uint64)0x7f000001, 0), 4000); caseBad = false;
+         vh::begin_case(40 + v); curScript = "regress: oversize chunk followed by small Messages in the same packet";
+         std::vector<MessageRef> m; m.push_back(MakeMsg(1, 44, 0, 1)); m.push_back(MakeMsg(2, 12, 0, 2));
+         if (v) { m.push_back(MakeMsg(3, 300, 0, 3)); m.push_back(MakeMsg(4, 30, 0, 4)); m.push_back(MakeMsg(5, 41, 0, 5)); m.push_back(MakeMsg(6, 40, 0, 6)); m.push_back(MakeMsg(7, 12, 0, 7)); }
+         SendAll(sc, 0, m); for (size_t i = 0; i < sc.sent[0].size(); i++) if (sc.sent[0][i].size() > sc.maxIncoming) sc.fits[0][i] = FIT_NO;
+         curScen = sc.Describe();
+         WitnessIdentity("max_incoming_size_drops_rest_of_packet", sc);
+         vh::distinct(41 + v);
       }
    }
    {  // "If bytesWritten is set to zero, we just hold this buffer until our next call" (mini tunnel, zlib): a held packet whose deflation did not pay,
@@ -631,9 +617,9 @@ static void Regress()
          gw.SetDataIO(DataIORef());
          if (io.holds == 0) { fprintf(stderr, "HARNESS-ABORT: no Write was held\n"); abort(); }
       }
-      ClassifyKnownDefects(sc, 0); curScen = sc.Describe(); caseFindings.clear();
-      std::vector<const Pkt *> seq; for (size_t i = 0; i < sc.pk[0].size(); i++) seq.push_back(&sc.pk[0][i]);
-      std::vector<Got> got; if (RunReceiver(sc, seq, got)) Judge(sc, got, true);
+      curScen = sc.Describe();
+      for (size_t i = 0; i < sc.pk[0].size(); i++) if (MiniPacketMislabelled(sc.pk[0][i].bytes)) Fail("mini_zlib_held_packet_header_says_uncompressed", vh::fmt("packet %zu is deflated but its header says level 0", i));
+      WitnessIdentity("mini_zlib_held_packet_header_says_uncompressed", sc);
       vh::distinct(21);
    }
    {  // mini tunnel: a Message that fits the MTU exactly is carried, one byte more is dropped, several small ones share a packet
